@@ -364,6 +364,101 @@ type Storm struct {
 }
 
 var stormCloses sync.Map // instance id -> *int64
+var stormArgs sync.Map   // instance id -> ids of the instances it was constructed with (storm mode)
+
+// scopesStorm: Iters times, K goroutines - each with a fresh scope OF ITS OWN - leave a spin barrier together and
+// resolve the scoped A (which depends on the scoped B): the same constructor runs in K scopes at once.  Every A must have
+// been constructed with the B of its own scope, every scope has its own A and B, each constructor ran once per scope.
+func scopesStorm(sc *CScenario, p godi.Provider) {
+	k := sc.Storm.K
+	for it := 0; it < sc.Storm.Iters; it++ {
+		stormCloses = sync.Map{}
+		stormArgs = sync.Map{}
+		scopes := make([]godi.Scope, k)
+		for g := range scopes {
+			s, err := p.CreateScope(context.Background())
+			if err != nil {
+				return
+			}
+			scopes[g] = s
+		}
+		R.mu.Lock()
+		beforeA, beforeB := R.inv["r2"], R.inv["r3"]
+		R.mu.Unlock()
+		res := make([]any, k)
+		var ready, errs, panics int64
+		var wg sync.WaitGroup
+		for g := 0; g < k; g++ {
+			wg.Add(1)
+			go func(g int) {
+				defer wg.Done()
+				defer func() {
+					if r := recover(); r != nil {
+						atomic.AddInt64(&panics, 1)
+					}
+				}()
+				atomic.AddInt64(&ready, 1)
+				for atomic.LoadInt64(&ready) < int64(k) {
+				}
+				v, err := scopes[g].Get(typeByName("S1"))
+				if err != nil || v == nil {
+					atomic.AddInt64(&errs, 1)
+					return
+				}
+				res[g] = v
+			}(g)
+		}
+		wg.Wait()
+		crossed, shared := 0, 0
+		seenA, seenB := map[any]bool{}, map[any]bool{}
+		for g := 0; g < k; g++ {
+			if res[g] == nil {
+				continue
+			}
+			if seenA[res[g]] {
+				shared++
+			}
+			seenA[res[g]] = true
+			b, err := scopes[g].Get(typeByName("S2"))
+			if err != nil || b == nil {
+				errs++
+				continue
+			}
+			if seenB[b] {
+				shared++
+			}
+			seenB[b] = true
+			got, _ := stormArgs.Load(idOf(res[g]))
+			ids, _ := got.([]int)
+			if len(ids) != 1 || ids[0] != idOf(b) {
+				crossed++ // this scope's A was constructed with something else than this scope's B
+			}
+		}
+		R.mu.Lock()
+		runs := []int{R.inv["r2"] - beforeA, R.inv["r3"] - beforeB, 0, 0}
+		R.mu.Unlock()
+		cerr := 0
+		for g := range scopes {
+			func() {
+				defer func() {
+					if r := recover(); r != nil {
+						atomic.AddInt64(&panics, 1)
+					}
+				}()
+				if err := scopes[g].Close(); err != nil {
+					cerr = 1
+				}
+			}()
+		}
+		closes := []int{}
+		stormCloses.Range(func(_, v any) bool {
+			closes = append(closes, int(atomic.LoadInt64(v.(*int64))))
+			return true
+		})
+		emit(M{"ev": "sstorm", "k": k, "crossed": crossed, "shared": shared, "runs": runs, "errs": int(errs), "panics": int(panics),
+			"closes": closes, "closeerr": cerr})
+	}
+}
 
 // resolveStorm: Iters times, K goroutines leave a spin barrier together and resolve in one FRESH scope - the first
 // resolutions of a scoped service (what=scoped: the scoped A, which depends on the scoped B; what=mixed: odd goroutines
@@ -499,6 +594,15 @@ func stormScenario(sc *CScenario, run int) {
 		os.Exit(4)
 	}
 	k := sc.Storm.K
+	if sc.Storm.What == "scopes" {
+		scopesStorm(sc, p)
+		func() {
+			defer func() { recover() }()
+			p.Close()
+		}()
+		R.storm = false
+		return
+	}
 	if sc.Storm.What != "" {
 		resolveStorm(sc, p)
 		func() {
